@@ -91,8 +91,9 @@ def rule_MK3(ctx, rep):
         leak = False
         for st, v, how in (definitions(sf.node, src.id) if isinstance(src, ast.Name) else []):
             if v is not None and ({x.id for x in ast.walk(v) if isinstance(x, ast.Name)} & opened):
-                g = [(norm(i.test), br) for i, br in enclosing_ifs(st, pm, stop=sf.node)]
-                if not any('pid' in t and '==' in t and br == 'body' for t, br in g):
+                from . import sem
+                g = sem._ctx_of(sf, st, pm)        # canonical atomic conditions with their truth (a != b is (a == b, False))
+                if not any('.pid' in t and '==' in t and tv for t, tv in g):
                     leak = True
         if leak:
             rep.bad('MK3', sf, ins[0], 'a party other than the designated receiver computes its input from opened values')
